@@ -28,6 +28,7 @@ structure HScn where
   ops : Array HOp
   wMaxAtt : Nat → Nat
   cbDur : Nat → Int
+  emitBatch : Bool := true     -- WithEmitBatch(): without it the trace has no `ev:batch` entries (monitors only)
 
 structure HCand where
   st : St
@@ -337,7 +338,7 @@ def parseHScn (inp : KV) : HScn :=
     rollback := (if gen == .v1 then Facts.v1_rollbackOnInsertError else Facts.v2_rollbackOnInsertError), wos := Facts.v2_shutdownWakesWaiters.getD false }
   {
     c := c, flushMs := flush / 1000000, pauseMs := c.pause / 1000000, maxcap := inp.nat "maxcap", ops := ops,
-    wMaxAtt := fun w => (wField 1 w).toNat, cbDur := fun w => wField 3 w }
+    wMaxAtt := fun w => (wField 1 w).toNat, cbDur := fun w => wField 3 w, emitBatch := inp.get "emb" != "0" }
 
 /-- returns (mismatch description, inconclusive?) -/
 def acceptHist (sc : HScn) (cap0 : Nat) (entries : List String) : Option String × Bool := Id.run do
